@@ -22,6 +22,7 @@ struct WSource {
     broken: bool,
     id: usize,
     use_alias: bool,
+    bare: bool,
 }
 
 #[derive(Clone, Debug)]
@@ -53,6 +54,8 @@ impl World {
             .map(|to| {
                 if s.use_alias {
                     gen::require_text(&s.path, to, &self.aliases)
+                } else if s.bare {
+                    gen::bare_require(&s.path, to)
                 } else {
                     gen::relative_require(&s.path, to)
                 }
@@ -300,6 +303,7 @@ pub fn generate(seed: u64, knobs: &Knobs) -> C10Scenario {
             broken: false,
             id: next_id,
             use_alias: s.use_alias,
+            bare: s.bare,
         };
         next_id += 1;
         w
@@ -342,6 +346,7 @@ pub fn generate(seed: u64, knobs: &Knobs) -> C10Scenario {
                 version: 0,
                 requires: Vec::new(),
                 use_alias: false,
+                bare: false,
             };
             let w = mk(&ext);
             let requirer = rp.below(world.sources.len());
@@ -511,6 +516,7 @@ pub fn generate(seed: u64, knobs: &Knobs) -> C10Scenario {
                     broken: false,
                     id: world.next_id,
                     use_alias: false,
+                    bare: false,
                 };
                 world.next_id += 1;
                 let luau_init = world.config.bundle.as_deref() == Some("luau")
@@ -551,6 +557,27 @@ pub fn generate(seed: u64, knobs: &Knobs) -> C10Scenario {
                             && !world.reaches(p, &world.sources[i].path)
                     })
                     .collect();
+                // a file that writes its requires without extension only gets targets whose
+                // stem is unique (otherwise the require would resolve to another file)
+                let stem_of = |p: &str| -> String {
+                    match p.rfind('.') {
+                        Some(k) if k > p.rfind('/').map(|x| x + 1).unwrap_or(0) => p[..k].to_owned(),
+                        _ => p.to_owned(),
+                    }
+                };
+                let candidates: Vec<String> = if world.sources[i].bare {
+                    let all: Vec<String> = world.all_lua().iter().map(|s| s.path.clone()).collect();
+                    candidates
+                        .into_iter()
+                        .filter(|c| {
+                            let stem = stem_of(c);
+                            all.iter().filter(|p| stem_of(p) == stem).count() == 1
+                                && !all.iter().any(|p| p.starts_with(&format!("{}/", stem)))
+                        })
+                        .collect()
+                } else {
+                    candidates
+                };
                 if candidates.is_empty() {
                     continue;
                 }
@@ -785,6 +812,65 @@ pub fn generate(seed: u64, knobs: &Knobs) -> C10Scenario {
                     path: world.sources[i].path.clone(),
                 });
             }
+            96 => {
+                // a required `x.lua` gets a higher-priority sibling `x.luau`, or is itself
+                // renamed to `x.luau` (requires written without extension re-resolve)
+                if world.input_is_file || avoid("candidate-shadowing") {
+                    continue;
+                }
+                let targets: Vec<String> = world
+                    .sources
+                    .iter()
+                    .filter(|s| s.bare)
+                    .flat_map(|s| s.requires.clone())
+                    .filter(|t| t.ends_with(".lua") && world.sources.iter().any(|x| x.path == *t))
+                    .collect();
+                if targets.is_empty() {
+                    continue;
+                }
+                let target = rh.pick(&targets).clone();
+                let sibling = format!("{}u", target);
+                if world.all_lua().iter().any(|s| s.path == sibling) {
+                    continue;
+                }
+                if rh.chance(1, 2) {
+                    let s = WSource {
+                        path: sibling.clone(),
+                        body_index: rh.below(corpus::BODIES.len()),
+                        version: 0,
+                        requires: Vec::new(),
+                        broken: false,
+                        id: world.next_id,
+                        use_alias: false,
+                        bare: false,
+                    };
+                    world.next_id += 1;
+                    let body = world.render(&s);
+                    world.sources.push(s);
+                    new_ops.push(Op::Add {
+                        path: sibling,
+                        body: Body::Text(body),
+                    });
+                } else {
+                    if !sim {
+                        continue;
+                    }
+                    for s in world.sources.iter_mut() {
+                        if s.path == target {
+                            s.path = sibling.clone();
+                        }
+                        for r in s.requires.iter_mut() {
+                            if *r == target {
+                                *r = sibling.clone();
+                            }
+                        }
+                    }
+                    new_ops.push(Op::Rename {
+                        from: target,
+                        to: sibling,
+                    });
+                }
+            }
             94 => {
                 // the output of a removed source cannot be removed (one failing `remove`)
                 if world.input_is_file
@@ -853,6 +939,7 @@ pub fn generate(seed: u64, knobs: &Knobs) -> C10Scenario {
                     broken: false,
                     id: world.next_id,
                     use_alias: false,
+                    bare: false,
                 };
                 world.next_id += 1;
                 let body = world.render(&s);
